@@ -22,6 +22,7 @@ Proof.
   intros now l bl il al del Hnn H. rewrite (translated_ok_select _ _ _ _ _ _ H).
   exact (select_is_prefix now l bl il al Hnn).
 Qed.
+Print Assumptions C18_prefix.
 
 (* what remains satisfies every limit that was given *)
 Theorem C18_limits : forall now l bl il al del rest,
@@ -33,6 +34,7 @@ Proof.
   intros now l bl il al del rest Hnn Hb Hn H Heq. rewrite (translated_ok_select _ _ _ _ _ _ H) in Heq.
   exact (select_meets_limits now l bl il al rest Hnn Hb Hn Heq).
 Qed.
+Print Assumptions C18_limits.
 
 (* nothing is evicted that did not have to be: no strictly shorter LRU prefix meets the limits *)
 Theorem C18_minimal : forall now l bl il al del pre' rest',
@@ -43,6 +45,7 @@ Proof.
   intros now l bl il al del pre' rest' Hnn H Heq Hlt. rewrite (translated_ok_select _ _ _ _ _ _ H) in Hlt.
   exact (select_minimal now l bl il al pre' rest' Hnn Heq Hlt).
 Qed.
+Print Assumptions C18_minimal.
 
 (* the method computes exactly the declarative "shortest prefix meeting all limits" *)
 Theorem C18_is_spec : forall now l bl il al del,
@@ -51,6 +54,7 @@ Proof.
   intros now l bl il al del Hnn H. rewrite (translated_ok_select _ _ _ _ _ _ H).
   exact (select_eq_spec now l bl il al Hnn).
 Qed.
+Print Assumptions C18_is_spec.
 
 (* strictly least-recently-used first: everything evicted is at most as recent as everything kept *)
 Theorem C18_lru : forall now l bl il al del rest x y,
@@ -60,6 +64,7 @@ Proof.
   intros now l bl il al del rest x y H Heq Hx Hy. rewrite (translated_ok_select _ _ _ _ _ _ H) in *.
   exact (select_lru now l bl il al rest x y Heq Hx Hy).
 Qed.
+Print Assumptions C18_lru.
 
 (* the order the prefix is taken from: a stable sort of the store (a permutation, ascending in
    last access, equal access times in store order) *)
@@ -69,17 +74,20 @@ Theorem C18_sort_is_stable : forall (l : list item) k,
 Proof.
   intros l k. split; [apply sort_by_perm | split; [apply sort_by_sorted | apply sort_by_stable]].
 Qed.
+Print Assumptions C18_sort_is_stable.
 
 (* totality: the only exception is ValueError for a negative age limit on a non-empty store *)
 Theorem C18_outcome : forall now l bl il al,
   (exists del, get_items_to_delete now l bl il al = Ok del) \/
   (get_items_to_delete now l bl il al = Raise ValueError /\ l <> [] /\ exists a, al = Some a /\ a < 0).
 Proof. exact translated_outcome. Qed.
+Print Assumptions C18_outcome.
 
 (* the translated source equals the hand-written model used by the correspondence check *)
 Theorem C18_translation_matches_model : forall now l bl il al,
   get_items_to_delete now l bl il al = items_to_delete_model now l bl il al.
 Proof. exact translated_eq_model. Qed.
+Print Assumptions C18_translation_matches_model.
 
 (* non-vacuity: a concrete store with ties, a zero-size entry and all three limits active *)
 Example C18_example :
@@ -89,3 +97,4 @@ Example C18_example :
   get_items_to_delete 10 l (Some 11) (Some 3) (Some 6)
     = Ok [ {| ipath := 2; isize := 0; iatime := 3 |}; {| ipath := 1; isize := 10; iatime := 5 |} ].
 Proof. split; [repeat constructor; discriminate | vm_compute; reflexivity]. Qed.
+Print Assumptions C18_example.
